@@ -76,6 +76,7 @@ type rRequest struct {
 	SetStatus int             `json:"setStatus"`
 	StopAt string `json:"stopAt"` // the user middleware that answers "do not continue" ("" = none)
 	NilCtx bool   `json:"nilCtx"` // the authorization callback hands back a nil context (with its approval or refusal)
+	Chunked bool  `json:"chunked"` // the body is sent without a Content-Length (chunked transfer coding)
 	// bookkeeping for the trace (not used by the driver)
 	Handler *hHandler `json:"handler,omitempty"`
 	Toks    []string  `json:"toks,omitempty"`
@@ -527,6 +528,7 @@ func enumerateRequests(id string, hs []hHandler, tokens map[string][]vToken, ful
 		r.Case, r.Rid, r.Handler, r.Toks, r.Script, r.Fail, r.Kind = id, len(reqs), h, append([]string{}, toks...), script, fail, kind
 		r.SameErr = kind == "auth-same-error"
 		r.NilCtx = kind == "auth-nil-ctx"
+		r.Chunked = kind == "chunked"
 		if strings.HasPrefix(kind, "mwstop:") {
 			parts := strings.Split(kind, ":")
 			r.StopAt = parts[1]
@@ -608,6 +610,14 @@ func enumerateRequests(id string, hs []hHandler, tokens map[string][]vToken, ful
 				toks := append([]string{}, base...)
 				toks[k] = t.ID
 				add(h, toks, nil, false, "token")
+			}
+			if p.In == "body" {
+				// the same bodies framed without a Content-Length (a streaming client): every body token, the base one included
+				for _, t := range tokens[baseType(p.Type)] {
+					toks := append([]string{}, base...)
+					toks[k] = t.ID
+					add(h, toks, nil, false, "chunked")
+				}
 			}
 			if p.In != "path" {
 				toks := append([]string{}, base...)
@@ -740,6 +750,7 @@ func driverSource(ids []string) string {
 	SetStatus int             ` + "`json:\"setStatus\"`" + `
 	StopAt  string            ` + "`json:\"stopAt\"`" + `
 	NilCtx  bool              ` + "`json:\"nilCtx\"`" + `
+	Chunked bool              ` + "`json:\"chunked\"`" + `
 }
 
 type result struct {
@@ -857,8 +868,15 @@ func serve(s served, rq request) (res result) {
 	var body io.Reader
 	if rq.Body != "" {
 		body = strings.NewReader(rq.Body)
+		if rq.Chunked {
+			body = struct{ io.Reader }{strings.NewReader(rq.Body)} // a reader of unknown length
+		}
 	}
 	req := httptest.NewRequest(rq.Verb, rq.URL, body)
+	if rq.Chunked && rq.Body != "" {
+		req.ContentLength = -1
+		req.TransferEncoding = []string{"chunked"}
+	}
 	for k, v := range rq.Headers {
 		req.Header.Set(k, v)
 	}
